@@ -11,6 +11,7 @@ import Proofs.C02Float
 import Proofs.C02Text
 import Proofs.C02Big
 import Proofs.C02FloatRd
+import Proofs.C02Hist
 /-!
   C02 — "Scalar readers return the mathematical value of the bits they consume".
   Property theorems about the model FqModel/Scalar.lean (+ the regenerated table of
@@ -614,6 +615,78 @@ theorem utf16_bom_roundtrip (cs : List Nat) (h : ∀ c ∈ cs, isScalar c) :
     exact utf16Encode_lt c (h c hc) u huc
   constructor <;> simp [decodeText, units16_bytes _ _ hu, utf16_units_roundtrip cs h]
 
+/-! ### read histories on one decoder: no state between reads except the position
+
+  `runHistory den st steps` runs 0..∞ steps (seek + reader, seek + SeekRel(-n) + reader, peeks,
+  BitsLeft/Pos, readers inside FieldStruct / FieldArray / FramedFn / LimitedFn / RangeFn /
+  SeekAbs(…, fn) children) on ONE decoder, threading the position as the Go methods do; `stepObs den s`
+  is the single-read description of step s — a function of the buffer's denotation and the step only.
+  So what a read returns cannot depend on what was read before (a stale shared read buffer, a
+  "same position and width as last time" cache, a buffer a child or a little-endian reader left
+  modified): the harness' `histories` run holds the real decoder to that, step by step. -/
+
+/-- the observation of step i depends only on (den, P_i, M_i): for ALL histories, from any state -/
+theorem read_history_stateless (den : Bits) (st : Nat) (steps : List Step) :
+    runHistory den st steps = steps.map (stepObs den) :=
+  runHistory_map den steps st
+
+/-- the i-th observation of any history is the single-read description of the i-th step -/
+theorem read_history_nth (den : Bits) (st : Nat) (steps : List Step) (i : Nat) :
+    (runHistory den st steps)[i]? = steps[i]?.map (stepObs den) := by
+  rw [read_history_stateless]; simp
+
+/-- plain reads: `runHistory` of (seek P_i, reader M_i) steps inside the input is `readAt den P_i M_i` -/
+theorem read_history_reads (den : Bits) (st : Nat) (rs : List (Nat × Reader))
+    (h : ∀ r ∈ rs, r.1 ≤ den.length) :
+    runHistory den st (rs.map fun r => .read r.1 r.2) = rs.map fun r => .rd (readAt den r.1 r.2) := by
+  rw [read_history_stateless, List.map_map]
+  apply List.map_congr_left
+  intro r hr
+  have := h r hr
+  simp only [Function.comp, stepObs]
+  rw [if_neg (by omega)]
+
+/-- reading again — the same step anywhere later in any history, whatever happened in between
+    (other widths, little-endian readers, children) — observes the same -/
+theorem reread_same (den : Bits) (st : Nat) (steps : List Step) (i j : Nat)
+    (h : steps[i]? = steps[j]?) :
+    (runHistory den st steps)[i]? = (runHistory den st steps)[j]? := by
+  rw [read_history_nth, read_history_nth, h]
+
+/-- twice at the same position with the same reader: the same value and position both times -/
+theorem reread_same_twice (den : Bits) (st p : Nat) (rd : Reader) (mid : List Step) (h : p ≤ den.length) :
+    runHistory den st ([.read p rd] ++ mid ++ [.read p rd])
+      = [.rd (readAt den p rd)] ++ mid.map (stepObs den) ++ [.rd (readAt den p rd)] := by
+  rw [read_history_stateless]
+  simp only [List.map_append, List.map_cons, List.map_nil, stepObs]
+  rw [if_neg (by omega)]
+
+/-- a peek of n bits followed by a read of n bits at the same position: the peek returns the
+    big-endian value of the n bits at P and leaves the position at P, the read returns the same
+    value and advances by n -/
+theorem peek_then_read (den : Bits) (st p n : Nat) (cur : Endian) (hn : n ≤ 64) (h : p + n ≤ den.length) :
+    runHistory den st [.peek p n, .read p ⟨cur, kTryUintBits, [.int n]⟩]
+      = [.peek (.ok (ofBitsBE (slice den p n)) p),
+         .rd (some ⟨.ok (.u (ofBitsBE (slice den p n))) (if n = 0 then p else p + n), none⟩)] := by
+  rw [read_history_stateless]
+  have hp : ¬ p > den.length := by omega
+  have h64 : ¬ n > 64 := by omega
+  have hneg : ¬ ((n : Int) < 0) := by omega
+  simp only [List.map_cons, List.map_nil, stepObs, if_neg hp, peekBits, readAt, rawCall, if_neg hneg,
+    Int.toNat_natCast, tryUintBits, if_neg h64, tryBits, if_true]
+  by_cases h0 : n = 0
+  · subst h0; simp [Res.map, Res.withPos, slice]
+  · simp [h0, h, Res.map, Res.withPos]
+
+/-- a read inside a child decoder that shares the parent's buffer (FieldStruct / FieldArray), then
+    the same read in the parent at the same position: the same observation -/
+theorem child_then_parent (den : Bits) (st p : Nat) (rd : Reader) (h : p ≤ den.length) :
+    runHistory den st [.child .struct p rd, .read p rd]
+      = [.child (readAt den p rd) (posAfter p (readAt den p rd)), .rd (readAt den p rd)] := by
+  rw [read_history_stateless]
+  have hp : ¬ p > den.length := by omega
+  simp only [List.map_cons, List.map_nil, stepObs, if_neg hp]
+
 /-! ### non-vacuity -/
 
 /-- tryU_be / tryU_le / tryS_*: hypotheses hold of a 13-bit read at alignment 5 and a 24-bit
@@ -657,6 +730,27 @@ example :
     ∧ cs.flatMap utf8Encode = [0x68, 0xC3, 0xA9, 0xF0, 0x9F, 0x98, 0x80]
     ∧ tryTextNullFrame ([true, false, true] ++ bitsOfBytes (unitsToBytes true (cs.flatMap utf16Encode) ++ [0, 0, 7])) 3 2
         = .ok [0x68, 0, 0xE9, 0, 0x3D, 0xD8, 0, 0xDE] 83 := by
+  decide +kernel
+
+/-- read histories: TryU16LE then TryU16BE at position 0 (decoder's current endian the opposite), a
+    16-bit peek then TryUintBits(16) at position 4, TryU16LE inside a FieldStruct child at position 8
+    then TryU16BE in the parent at position 8, and a re-read after SeekRel(-16): every step is the
+    value of the bits at its position -/
+example :
+    runHistory (bytesToBits [0x12, 0x34, 0x56]) 7
+      [.read 0 ⟨.be, [84, 114, 121, 85, 49, 54, 76, 69], []⟩,
+       .read 0 ⟨.le, [84, 114, 121, 85, 49, 54, 66, 69], []⟩,
+       .peek 4 16,
+       .read 4 ⟨.be, kTryUintBits, [.int 16]⟩,
+       .child .struct 8 ⟨.be, [84, 114, 121, 85, 49, 54, 76, 69], []⟩,
+       .read 8 ⟨.le, [84, 114, 121, 85, 49, 54, 66, 69], []⟩,
+       .relRead 8 16 ⟨.be, [84, 114, 121, 85, 49, 54, 76, 69], []⟩,
+       .child (.limited 8) 0 ⟨.be, [84, 114, 121, 85, 49, 54, 76, 69], []⟩]
+    = [.rd (some ⟨.ok (.u 0x3412) 16, none⟩), .rd (some ⟨.ok (.u 0x1234) 16, none⟩),
+       .peek (.ok 0x2345 4), .rd (some ⟨.ok (.u 0x2345) 20, none⟩),
+       .child (some ⟨.ok (.u 0x5634) 24, none⟩) 24, .rd (some ⟨.ok (.u 0x3456) 24, none⟩),
+       .rd (some ⟨.ok (.u 0x5634) 24, none⟩),
+       .child (some ⟨.err .eof 8, none⟩) 8] := by
   decide +kernel
 
 end Props.C02
